@@ -17,6 +17,9 @@ import PybropsModel.Lemmas.GenomicEntries
 import PybropsModel.Lemmas.GenomicStats
 import PybropsModel.Lemmas.RRFit
 import PybropsModel.Lemmas.AllelesCell
+import PybropsModel.Lemmas.RidgeDominant
+import PybropsModel.Lemmas.GenomicMisc
+import PybropsModel.Lemmas.SpecLinkStats
 set_option autoImplicit false
 set_option linter.unusedSectionVars false
 set_option linter.unusedSimpArgs false
@@ -102,6 +105,48 @@ theorem predict_linear (beta u X Z : List (List α)) (t i k : ℕ) (hiX : i < X.
         (by rw [matMul_row_length' _ _ t i hiX]; exact hk) (by rw [matMul_row_length' _ _ t i hiZ]; exact hk),
       matMul_entry_sum X beta t i k beta.length hiX hk hX rfl,
       matMul_entry_sum Z u t i k u.length hiZ hk hZ rfl]
+
+/-- **prediction with miscellaneous random effects** (`u = [u_misc ; u_a]`, `Z = [Z_misc | Z_a]`):
+    `Ŷ_ik = Σ_r X_ir β_rk + Σ_l Zm_il m_lk + Σ_j Za_ij a_jk` -/
+theorem predict_linear_misc (beta um ua X Zm Za : List (List α)) (t i k : ℕ)
+    (hiX : i < X.length) (hiM : i < Zm.length) (hlen : Zm.length = Za.length) (hk : k < t)
+    (hX : (X.getD i []).length = beta.length) (hZm : ∀ r ∈ Zm, r.length = um.length)
+    (hZa : (Za.getD i []).length = ua.length) :
+    matFn (predictNumpyMisc beta um ua X Zm Za t) i k
+      = ∑ r ∈ range beta.length, matFn X i r * matFn beta r k
+        + ∑ l ∈ range um.length, matFn Zm i l * matFn um l k
+        + ∑ j ∈ range ua.length, matFn Za i j * matFn ua j k :=
+  GMisc.predictNumpyMisc_entry beta um ua X Zm Za t i k hiX hiM hlen hk hX hZm hZa
+
+example : (∀ r ∈ ([[1], [2]] : List (List ℚ)), r.length = ([[3, 4]] : List (List ℚ)).length) := by decide
+
+/-- `predict(cvobj, GenotypeMatrix)` only passes the dosage columns: it answers exactly when there are
+    no miscellaneous effects and rejects (shape check) otherwise -/
+theorem predict_gm_misc (beta um ua X : List (List α)) (A : List (List Int)) (t : ℕ) :
+    (um = [] → predictGM beta um ua X A t = .ok (predictNumpy beta ua X (castM A) t)) ∧
+    (um ≠ [] → predictGM beta um ua X A t = .error "value") := by
+  constructor
+  · intro h; subst h; simp [predictGM]
+  · intro h
+    have : um.length ≠ 0 := by simpa [List.length_eq_zero_iff] using h
+    simp [predictGM, this]
+
+/-- **a breeding-value matrix as phenotype input gives the same R²**: `score` unscales it, and unscaling
+    undoes the standardisation for any location and any non-zero scale -/
+theorem score_bvmat (beta u Y X Z : List (List α)) (loc scale : List α) (t : ℕ)
+    (hY : ∀ r ∈ Y, r.length = t) (hl : loc.length = t) (hs : scale.length = t) (hne : ∀ s ∈ scale, s ≠ 0) :
+    scoreBV beta u (standardiseBV Y loc scale) loc scale X Z t = score beta u Y X Z t := by
+  unfold scoreBV
+  rw [GMisc.unscale_standardise Y loc scale t hY hl hs hne]
+
+/-- the same for `fit(ptobj = BreedingValueMatrix, …)` -/
+theorem fit_bvmat (Y Z : List (List α)) (loc scale : List α) (p t : ℕ)
+    (solve : ℕ → List α → List (List α) → List α)
+    (hY : ∀ r ∈ Y, r.length = t) (hl : loc.length = t) (hs : scale.length = t) (hne : ∀ s ∈ scale, s ≠ 0) :
+    fitNumpy (unscaleBV (standardiseBV Y loc scale) loc scale) Z p t solve = fitNumpy Y Z p t solve := by
+  rw [GMisc.unscale_standardise Y loc scale t hY hl hs hne]
+
+example : (∀ s ∈ ([2, 1/3] : List ℚ), s ≠ 0) ∧ (∀ r ∈ ([[1, 2], [3, 5]] : List (List ℚ)), r.length = 2) := by decide +kernel
 
 /-! ## 2. … irrespective of taxon order; output rows carry the input's labels -/
 
@@ -639,7 +684,7 @@ theorem gs_fixed_point_solves {n : ℕ} {A : List (List α)} {b : List α} (h : 
 
 /- FULL STATEMENT (false of the as-is model, see `normal_equations_counterexample`; on the real code
    at the default maxiter = 1000 it fails in floating point for ill-conditioned n > p training
-   sets — finding D-C04-1):
+   sets — finding D22):
 
    theorem normal_equations (y Z n p) (hZ : Rect Z n p) (hnp : p < n) (ridge > 0) (atol > 0) (maxiter) :
      ∀ i < p, |resid p (Z'Z + ridge I) (Z' y_c) (ml0 y Z p ridge atol maxiter).2 i|
@@ -700,7 +745,7 @@ theorem normal_equations_counterexample :
   decide +kernel
 
 /-- **the same at the code's defaults** (`gsmaxiter = 1000`, `gsatol = 1e-8`) in exact arithmetic:
-    for the training set of finding D-C04-1 (two identical markers, three records) and a ridge of the
+    for the training set of finding D22 (two identical markers, three records) and a ridge of the
     size the ML step returns there (≈ 4.5e-5), all 1000 sweeps are used and the returned effects still
     miss the normal equations by far more than the tolerance bound.  (Kernel evaluation, ≈ 15 s.) -/
 theorem normal_equations_counterexample_default_maxiter :
@@ -712,5 +757,190 @@ theorem normal_equations_counterexample_default_maxiter :
     ¬ (|GSFn.resid 2 (matFn (ztzPlusRidge Z 2 ridge)) (vecFn (zty Z 2 (center y))) (vecFn u) 0|
         ≤ atol * ∑ j ∈ range 2, if 0 < j then |matFn (ztzPlusRidge Z 2 ridge) 0 j| else 0) := by
   decide +kernel
+
+/-! ## 10. rrBLUP: convergence of Gauss–Seidel for strictly diagonally dominant systems
+
+The general symmetric positive-diagonal case stays partial (section 9, finding D22).  For the
+sub-class of strictly diagonally dominant systems the loop provably stops by its tolerance test
+within an explicit number of sweeps; `ridge_dominance_iff` says exactly when `Z'Z + ridge·I` is in
+that class, `ztz_not_dominant_counterexample` that it is not in general, and
+`d22_system_dominant_but_slow` that the D22 training set *is* dominant but with a contraction factor
+so close to 1 that the explicit sweep bound exceeds `maxiter = 1000` by three orders of magnitude. -/
+
+/-- **strict diagonal dominance yields a contraction factor `q < 1`** with
+    `Σ_{j>i}|A_ij| ≤ q·(A_ii − Σ_{j<i}|A_ij|)` in every row -/
+theorem diag_dominant_has_factor (n : ℕ) (A : ℕ → ℕ → α) (h : GSConv.SDD n A) : ∃ q, GSConv.Contr n A q :=
+  GSConv.sdd_has_factor n A h
+
+/-- **a Gauss–Seidel sweep contracts differences by `q` in the max norm** (so it contracts the error
+    to the solution, and successive steps, by `q`) -/
+theorem gs_sweep_contracts {n : ℕ} {A : List (List α)} {b : List α} (h : Square n A b) (q : α)
+    (hc : GSConv.ContrL n A q) (x y : List α) (hx : x.length = n) (hy : y.length = n) (M : α)
+    (hM : ∀ j, j < n → |vecFn x j - vecFn y j| ≤ M) :
+    ∀ i, i < n → |vecFn (gsSweep A b x) i - vecFn (gsSweep A b y) i| ≤ q * M := by
+  rw [(gsSweep_fn h x hx).2, (gsSweep_fn h y hy).2]
+  exact GSConv.sweep_contract n (matFn A) q hc (vecFn b) (vecFn x) (vecFn y) M hM
+
+/-- **conditional full normal-equation theorem**: for a system with contraction factor `q` (e.g. any
+    strictly diagonally dominant one), every `atol > 0`, every bound `D0` on the first sweep from zero
+    and every `K` with `q^K·D0 ≤ atol`: if `maxiter ≥ K + 2`, `gauss_seidel` performs between 1 and
+    `K+1` sweeps, stops by its tolerance test, and every residual of `A x = b` is at most
+    `atol · Σ_{j>i}|A_ij|`. -/
+theorem normal_equations_of_diag_dominant {n : ℕ} {A : List (List α)} {b : List α} (h : Square n A b)
+    (q : α) (hc : GSConv.ContrL n A q) (atol : α) (hat : 0 < atol) (maxiter K : ℕ) (D0 : α)
+    (hD0 : ∀ j, j < n → |vecFn (gsSweep A b (b.map (fun _ => (0:α)))) j| ≤ D0)
+    (hK : q ^ K * D0 ≤ atol) (hmax : K + 2 ≤ maxiter) :
+    let s := gsSweeps A b atol maxiter (decide (atol < atol + atol)) (b.map (fun _ => (0:α)))
+    1 ≤ s ∧ s ≤ K + 1 ∧
+    ∀ i, i < n → |GSFn.resid n (matFn A) (vecFn b) (vecFn (gaussSeidel A b atol maxiter)) i|
+      ≤ atol * GSConv.upSum n (matFn A) i :=
+  GSConv.gs_converges_of_contr h q hc atol hat maxiter K D0 hD0 hK hmax
+
+/-- an explicit `D0`: the first sweep from zero is bounded by `max|b| / δ` for any
+    `0 < δ ≤ A_ii − Σ_{j<i}|A_ij|` -/
+theorem first_sweep_explicit_bound {n : ℕ} {A : List (List α)} {b : List α} (h : Square n A b) (B δ : α)
+    (hδ : 0 < δ) (hd : ∀ i, i < n → 0 < matFn A i i)
+    (hlow : ∀ i, i < n → δ ≤ matFn A i i - GSConv.lowSum n (matFn A) i)
+    (hb : ∀ i, i < n → |vecFn b i| ≤ B) :
+    ∀ j, j < n → |vecFn (gsSweep A b (b.map (fun _ => (0:α)))) j| ≤ B / δ := by
+  rw [(gsSweep_fn h _ (by simp [h.rhs])).2, vecFn_zeros]
+  exact GSConv.first_sweep_bound n (matFn A) (vecFn b) B δ hδ hd hlow hb
+
+/-- non-vacuity: `[[4,1],[1,3]] x = [1,2]` has factor 1/4, first sweep ≤ 7/12, and `(1/4)^3·7/12 ≤ 1/100` -/
+example : Square 2 ([[4, 1], [1, 3]] : List (List ℚ)) [1, 2] ∧
+    GSConv.ContrL 2 ([[4, 1], [1, 3]] : List (List ℚ)) (1/4) ∧
+    (∀ j, j < 2 → |vecFn (gsSweep ([[4, 1], [1, 3]] : List (List ℚ)) [1, 2] [0, 0]) j| ≤ 7/12) ∧
+    ((1/4 : ℚ) ^ 3 * (7/12) ≤ 1/100) :=
+  ⟨⟨by decide, by decide, by decide⟩,
+   ⟨by decide +kernel, by decide +kernel, by decide +kernel, by decide +kernel⟩,
+   by decide +kernel, by decide +kernel⟩
+
+/-- the same for the system `rrBLUP_ML0` assembles: if `Z'Z + ridge·I` has contraction factor `q`, the
+    fitted effects satisfy the penalised normal equations to `gsatol · Σ_{j>i}|A_ij|` -/
+theorem rrblup_normal_equations_of_diag_dominant (y : List α) (Z : List (List α)) (p : ℕ) (ridge q : α)
+    (hc : GSConv.ContrL p (ztzPlusRidge Z p ridge) q) (atol : α) (hat : 0 < atol) (maxiter K : ℕ) (D0 : α)
+    (hD0 : ∀ j, j < p → |vecFn (gsSweep (ztzPlusRidge Z p ridge) (zty Z p (center y))
+              ((zty Z p (center y)).map (fun _ => (0:α)))) j| ≤ D0)
+    (hK : q ^ K * D0 ≤ atol) (hmax : K + 2 ≤ maxiter) (i : ℕ) (hi : i < p) :
+    |GSFn.resid p (matFn (ztzPlusRidge Z p ridge)) (vecFn (zty Z p (center y)))
+        (vecFn (ml0 y Z p ridge atol maxiter).2) i|
+      ≤ atol * GSConv.upSum p (matFn (ztzPlusRidge Z p ridge)) i := by
+  unfold ml0
+  exact (GSConv.gs_converges_of_contr (Ridge.square_ztz Z p ridge (center y)) q hc atol hat maxiter K D0
+    hD0 hK hmax).2.2 i hi
+
+/-- **when is the rrBLUP system diagonally dominant?**  Exactly when in every row the ridge exceeds the
+    off-diagonal excess: `Σ_{k≠j}|Σ_i Z_ij Z_ik| < Σ_i Z_ij² + ridge`. -/
+theorem ridge_dominance_iff (Z : List (List α)) (n p : ℕ) (hn : Z.length = n) (ridge : α) :
+    GSConv.SDD p (matFn (ztzPlusRidge Z p ridge)) ↔
+      ∀ j, j < p → RidgeDom.offSum n p (matFn Z) j < RidgeDom.diagSq n (matFn Z) j + ridge :=
+  RidgeDom.ztz_sdd_iff Z n p hn ridge
+
+/-- it is **not** dominant in general: three identical markers, two records, ridge 1 (n < p here; the
+    6×5 corpus case of D22 is an n > p instance observed by the correspondence run) -/
+theorem ztz_not_dominant_counterexample :
+    ¬ GSConv.SDD 3 (matFn (ztzPlusRidge ([[1, 1, 1], [1, 1, 1]] : List (List ℚ)) 3 1)) := by
+  unfold GSConv.SDD
+  decide +kernel
+
+/-- the D22 training set (two identical markers) **is** dominant, with factor `2/(2+ridge)`: for the
+    ridge the ML step returns (≈ 1/22222) that is 44444/44445, so the sweep bound `K` with
+    `q^K·D0 ≤ 1e-8` is of order 10⁵–10⁶ ≫ 1000 — the theorem above does not apply at the default
+    `maxiter`, in agreement with `normal_equations_counterexample_default_maxiter`. -/
+theorem d22_system_dominant_but_slow :
+    GSConv.ContrL 2 (ztzPlusRidge ([[1, 1], [0, 0], [1, 1]] : List (List ℚ)) 2 (1/22222)) (44444/44445) ∧
+    ¬ GSConv.ContrL 2 (ztzPlusRidge ([[1, 1], [0, 0], [1, 1]] : List (List ℚ)) 2 (1/22222)) (44443/44445) := by
+  refine ⟨⟨by decide +kernel, by decide +kernel, by decide +kernel, by decide +kernel⟩, ?_⟩
+  intro h
+  have := h.row 0 (by decide)
+  revert this
+  decide +kernel
+
+/-! ## 11. The Spec oracles and the model agree
+
+`GSpec.specValues / specStat / specAlleles` (Model/GenomicSpec.lean) are the Bool oracles the driver
+ops `c04.spec_values / spec_stats / spec_alleles` evaluate on the IMPLEMENTATION's outputs; they are
+written index-wise from the phased genotypes, independently of the model.  Sound: they accept the
+model's outputs at every tolerance `abs ≥ 0`.  Complete: at zero tolerance they accept nothing but the
+model's outputs.  So "Spec true on the implementation" and "implementation = model" coincide up to
+the tolerance, for every shape. -/
+
+open SpecLink in
+/-- **spec_sound (values)**: for each of the five modes (gebv, gebv_numpy, gegv, predict, predict_dom) the
+    oracle accepts the model's matrix -/
+theorem spec_values_sound {beta ua : List (List ℚ)} {t ploidy : ℕ} {g : List (List (List Int))}
+    {mode : String} {ud X : Option (List (List ℚ))} {M : List (List ℚ)} {n p : ℕ}
+    (hm : IsModel beta ua t ploidy g mode ud X M) (hv : ViewOK beta ua ud X g n p)
+    (rel abs_ : ℚ) (ha : 0 ≤ abs_) :
+    GSpec.specValues rel abs_ mode beta ua ud X t ploidy g (someM M) = true := by
+  unfold GSpec.specValues
+  rw [valueDef_eq_model hm hv]
+  exact closeMat_self rel abs_ ha M
+
+open SpecLink in
+/-- **spec_complete (values)**: a matrix accepted at zero tolerance is the model's matrix -/
+theorem spec_values_complete {beta ua : List (List ℚ)} {t ploidy : ℕ} {g : List (List (List Int))}
+    {mode : String} {ud X : Option (List (List ℚ))} {M : List (List ℚ)} {n p : ℕ}
+    (hm : IsModel beta ua t ploidy g mode ud X M) (hv : ViewOK beta ua ud X g n p)
+    (out : List (List (Option ℚ))) (h : GSpec.specValues 0 0 mode beta ua ud X t ploidy g out = true) :
+    out = someM M := by
+  unfold GSpec.specValues at h
+  rw [valueDef_eq_model hm hv] at h
+  exact closeMat_zero out M h
+
+open SpecLink in
+/-- **spec_sound (statistics)**: var_A, var_G (additive and dominance), var_a, afreq, bulmer, score,
+    score_dom — the oracle accepts the model's row -/
+theorem spec_stats_sound {beta ua : List (List ℚ)} {ud X Y : Option (List (List ℚ))} {t ploidy : ℕ}
+    {g : List (List (List Int))} {n p : ℕ} (hv : ViewOK beta ua ud X g n p) (name : String)
+    (row : List (Option ℚ)) (hm : modelStat name beta ua ud X Y t ploidy g = some row)
+    (rel abs_ : ℚ) (ha : 0 ≤ abs_) :
+    GSpec.specStat rel abs_ name beta ua ud X Y t ploidy g row = true := by
+  unfold GSpec.specStat
+  rw [statDef_eq_model hv name row hm]
+  exact closeORow_self rel abs_ ha row
+
+open SpecLink in
+/-- **spec_complete (statistics)** -/
+theorem spec_stats_complete {beta ua : List (List ℚ)} {ud X Y : Option (List (List ℚ))} {t ploidy : ℕ}
+    {g : List (List (List Int))} {n p : ℕ} (hv : ViewOK beta ua ud X g n p) (name : String)
+    (row : List (Option ℚ)) (hm : modelStat name beta ua ud X Y t ploidy g = some row)
+    (got : List (Option ℚ)) (h : GSpec.specStat 0 0 name beta ua ud X Y t ploidy g got = true) :
+    got = row := by
+  unfold GSpec.specStat at h
+  rw [statDef_eq_model hv name row hm] at h
+  exact closeORow_zero got row h
+
+open SpecLink in
+/-- **spec_sound (alleles)**: all twelve verdicts are true on the model's outputs -/
+theorem spec_alleles_sound {ua : List (List ℚ)} {g : List (List (List Int))} {n p : ℕ}
+    (h : AlleleOK ua g n p) (ploidy : ℕ) (rel abs_ : ℚ) (ha : 0 ≤ abs_) :
+    ∀ c ∈ GSpec.specAlleles rel abs_ ua ploidy g (modelAlleles ua ploidy (phaseSum g)), c.2 = true := by
+  rw [modelAlleles_eq_ref h ploidy]
+  exact specAlleles_ref rel abs_ ha ua ploidy g
+
+open SpecLink in
+/-- **spec_complete (alleles)**: twelve true verdicts at zero tolerance force the model's outputs
+    (the integer and boolean matrices are equality Specs at every tolerance) -/
+theorem spec_alleles_complete {ua : List (List ℚ)} {g : List (List (List Int))} {n p : ℕ}
+    (h : AlleleOK ua g n p) (ploidy : ℕ) (o : GSpec.AlleleObs)
+    (hall : ∀ c ∈ GSpec.specAlleles 0 0 ua ploidy g o, c.2 = true) :
+    o = modelAlleles ua ploidy (phaseSum g) := by
+  rw [modelAlleles_eq_ref h ploidy]
+  exact specAlleles_zero ua ploidy g o hall
+
+/-- non-vacuity: the shape hypotheses hold for a concrete diploid case with dominance effects and
+    covariates, and the oracle indeed evaluates to true on the model's GEGV matrix -/
+example : SpecLink.ViewOK ([[1, 2], [3, 0]] : List (List ℚ)) [[1, -1], [0, 2]] (some [[1, 0], [0, 1]])
+    (some [[1, 0], [1, 1], [1, 2]]) [[[0, 1], [1, 1], [0, 0]], [[1, 1], [1, 0], [0, 0]]] 3 2 :=
+  ⟨⟨by decide, by decide⟩, by decide, by decide, by decide, by decide⟩
+
+example : GSpec.specValues (1/1000000000) (1/1000000000000) "gegv" ([[1, 2], [3, 0]] : List (List ℚ))
+    [[1, -1], [0, 2]] (some [[1, 0], [0, 1]]) none 2 2 [[[0, 1], [1, 1], [0, 0]], [[1, 1], [1, 0], [0, 0]]]
+    (SpecLink.someM (gegvGM [[1, 2], [3, 0]] [[1, -1], [0, 2]] [[1, 0], [0, 1]] 2 2
+      (phaseSum [[[0, 1], [1, 1], [0, 0]], [[1, 1], [1, 0], [0, 0]]]))) = true := by decide +kernel
+
+example : SpecLink.AlleleOK ([[1, -1], [0, 2]] : List (List ℚ)) [[[0, 1], [1, 1], [0, 0]], [[1, 1], [1, 0], [0, 0]]] 3 2 :=
+  ⟨⟨by decide, by decide⟩, by decide, by decide⟩
 
 end C04
